@@ -105,3 +105,34 @@ def complex_parens_grow(ename, case, fail, obs):
     a, b = obs.get("arg") or "", obs.get("arg2") or ""
     strip = lambda t: t.replace("(", "").replace(")", "").replace(" ", "")
     return "j" in a and strip(a) == strip(b)
+
+
+def partially_ordered_set_elements(ename, case, fail, obs):
+    """KF-C16-1: `sorted()` succeeds on a set whose elements are only partially ordered (sets / frozensets compare
+    by inclusion), so no TypeError triggers the text-sorted fallback and the written order follows the iteration
+    order, i.e. PYTHONHASHSEED.  Matches only hash-seed failures of values that contain such a set."""
+    if ename != "values" or fail[1] != "hash_seed_independent":
+        return False
+    import sys
+    import types
+    from .engines import values as V
+    mod = types.ModuleType("vt_known_mod")
+    sys.modules["vt_known_mod"] = mod
+    try:
+        exec(compile(V.PRELUDE, "<prelude>", "exec"), mod.__dict__)
+
+        def has(v):
+            if isinstance(v, (set, frozenset)):
+                if len(v) >= 2 and all(isinstance(e, (set, frozenset)) for e in v):
+                    return True
+                return any(has(e) for e in v)
+            if isinstance(v, (list, tuple)):
+                return any(has(e) for e in v)
+            if isinstance(v, dict):
+                return any(has(e) for e in v.values()) or any(has(k) for k in v)
+            return False
+        return any(has(eval(src, mod.__dict__)) for src in case.get("vals", []))
+    except Exception:  # noqa: BLE001
+        return False
+    finally:
+        sys.modules.pop("vt_known_mod", None)
